@@ -290,6 +290,10 @@ def props_of(conj, sig, group):
             ps.add('C13')
         if conj == 'published' or op in ('write', 'flush', 'close_w', 'seek_w', 'open_append', 'open_create'):
             ps.add('C04')
+        if conj == 'times' or op == 'set_cr':
+            ps.add('C19')
+        if conj == 'published' and sig.get('detached'):
+            ps.add('C03')
         return ps
     if kind == 'join':
         ps.add('C06')
